@@ -749,15 +749,19 @@ class Machine(object):
                      "nonce and mac_len choices; KW, KWP), 1-6 sealed records and 2-14 deliveries, each damaged by one channel fault "
                      "(bit flips in every field, tag truncation/extension/zeroing, ciphertext truncation/extension/rotation, re-framing "
                      "of the ciphertext/tag boundary, splices between records, block swaps incl. around powers of two, for KW/KWP also "
-                     "structures crafted with the KEK) and opened through a seeded API path; non-trivial = at least 2 deliveries; "
+                     "structures crafted with the KEK) and opened through a seeded API path (one-shot, split, in place, or streamed in pieces with "
+                     "calls the object refuses for their arguments in between); a third of the records come from a streaming sender of the "
+                     "same kind; every record is compared with an independent construction of the mode; non-trivial = at least 2 deliveries; "
                      "distinct = SHA-256 of the canonical case"),
             "state_measure": "distinct (mode, fault kind, API path class, verdict) tuples",
             "components": {"real": ["Crypto.Cipher AEAD modes, KW/KWP, CMAC/S2V, GHASH, Poly1305, OCB C code"],
                            "stub": ["the channel between sender and receiver", "os.urandom (seeded; verify() blinding only)"]},
-            "assumptions": ["'the tag the specification defines' is replaced by 'the tag the library's own encrypt direction produces' "
-                            "(conformance to the specification is C02, not claimed)",
+            "assumptions": ["trusted: the block ciphers, ECB/CBC/CTR and the raw ChaCha20 key stream under the independent constructions (C02)",
+                            "after a call refused for its arguments a later call may raise and a receiver may reject (tolerated); silently "
+                            "different output is a violation",
                             "the history rule's rejection half is asserted only for tags/ICVs of at least 64 bits (forgery bound 2^-64)",
                             "KW/KWP reference: independent RFC 3394 / RFC 5649 unwrap over library ECB"],
-            "expected_probes": ["genuine_delivered", "short_tag_offered", "tag_prefix_offered", "non_default_mac_len"],
+            "expected_probes": ["genuine_delivered", "short_tag_offered", "tag_prefix_offered", "non_default_mac_len", "spec_reference_compared",
+                                "sender_streamed", "sender_streamed_with_refused_calls", "receiver_streamed", "receiver_streamed_with_refused_calls"],
             "not_reached": [],
         }
